@@ -44,6 +44,21 @@ PROPS = {
                          "hand-written parser model Redproxy/Model/MiluParser.lean; template strings and \\u escapes not modelled"],
         "assumptions": [],
     },
+    "C08": {
+        "props_module": "Redproxy.Props.C08",
+        "mode": "c08",
+        "rule": "milu programs as text through the real parser, type checker (context as Filter::validate builds it) and evaluator (context as "
+                "Filter::evaluate builds it, 6 request shapes): directed witnesses and builtin boundary cases, every binary operator over an "
+                "18-value literal pool incl. the i64 extremes (exhaustive), every unary operator, type-directed random programs in four families "
+                "(scalar, with let, with arrays/tuples/index/member/split/strcat, and an untyped stream that is mostly rejected); non-trivial = the "
+                "program was accepted by the checker; distinct = distinct (request, text) lines",
+        "nontrivial": lambda c, i: i.startswith("T=") and not i.startswith("T=err"),
+        "trusted_base": ["hand-written checker/evaluator model Redproxy/Model/MiluEval.lean tied to milu/src/script.rs + stdlib.rs + "
+                         "src/rules/script_ext.rs by exact correspondence (type, value or error class) on the programs above",
+                         "regex matching is a parameter of the model (the driver instantiates it for the literal/anchor/dot patterns the generator uses)",
+                         "the text is parsed by the parser model of C09 on the model side and by the real parser on the implementation side"],
+        "assumptions": ["regex crate: compile/match behaviour outside the generated pattern class is not modelled"],
+    },
     "C05": {
         "props_module": "Redproxy.Props.C05",
         "mode": "c05", "model_mode": "codec",
